@@ -5,7 +5,9 @@ import (
 	"bytes"
 	"context"
 	"crypto/hpke"
+	"crypto/sha256"
 	"encoding/binary"
+	"encoding/hex"
 	"encoding/json"
 	"flag"
 	"fmt"
@@ -632,6 +634,41 @@ func Attack(args []string) {
 // with the manifest entry (hash, sizes, counts) rewritten to match - a consistent forgery that only the semantic
 // preflight (do the endpoints exist in that graph?) can refuse, and it has to refuse before anything is written.
 func crossGraphAttacks(w *tr.Writer, hid int, codec, root string) int {
+	n := crossGraphAttacksWith(w, hid, codec, root, false)
+	if codec == "none" {
+		// the same forgeries on a dump whose source ids are not decimal numbers (an archive written by a producer with
+		// another id strategy): uncompressed fragments only, rewritten with their manifest entries
+		n += crossGraphAttacksWith(w, hid+50, codec, root+"-opaque", true)
+	}
+	return n
+}
+
+// opaqueIDs rewrites every id of an uncompressed fragment ("12" -> "4:src:12") and returns the new content.
+func opaqueIDs(content []byte) []byte {
+	var out bytes.Buffer
+	for _, line := range bytes.Split(content, []byte("\n")) {
+		if len(bytes.TrimSpace(line)) == 0 {
+			continue
+		}
+		var rec map[string]any
+		if json.Unmarshal(line, &rec) != nil {
+			out.Write(line)
+			out.WriteByte('\n')
+			continue
+		}
+		for _, k := range []string{"id", "start_id", "end_id"} {
+			if v, ok := rec[k].(string); ok {
+				rec[k] = "4:src:" + v
+			}
+		}
+		b, _ := json.Marshal(rec)
+		out.Write(b)
+		out.WriteByte('\n')
+	}
+	return out.Bytes()
+}
+
+func crossGraphAttacksWith(w *tr.Writer, hid int, codec, root string, opaque bool) int {
 	cfg := Config{Graphs: []GraphCfg{{"g0", 3, 2}, {"g1", 2, 1}}, Shard: 2, Batch: 2, Codec: codec}
 	e := &attackEnv{cfg: cfg, w: w, hid: hid, root: root, files: map[string][]byte{}}
 	os.MkdirAll(e.root, 0o755)
@@ -648,17 +685,49 @@ func crossGraphAttacks(w *tr.Writer, hid int, codec, root string) int {
 		}
 		return nil
 	})
+	if opaque {
+		// rewrite the fragments and their manifest entries (hash, sizes), drop the metrics (they name no ids but the
+		// loader recomputes them against what it reads), write the rewritten dump back so that the baseline load reads it
+		var m map[string]any
+		if json.Unmarshal(e.files["manifest.json"], &m) != nil {
+			tr.Fatal("two-graph manifest")
+		}
+		for _, g := range m["graphs"].([]any) {
+			for _, f := range g.(map[string]any)["files"].([]any) {
+				fm := f.(map[string]any)
+				rel := fm["path"].(string)
+				nc := opaqueIDs(e.files[rel])
+				e.files[rel] = nc
+				sum := sha256.Sum256(nc)
+				fm["sha256"] = hex.EncodeToString(sum[:])
+				fm["compressed_bytes"], fm["uncompressed_bytes"] = len(nc), len(nc)
+			}
+		}
+		b, _ := json.MarshalIndent(m, "", "  ")
+		e.files["manifest.json"] = b
+		for rel, content := range e.files {
+			os.WriteFile(filepath.Join(e.dump, filepath.FromSlash(rel)), content, 0o644)
+		}
+	}
 	bm, _ := consumedOf(e.files["manifest.json"])
 	e.baseMan = bm
 	db := fakedb.New()
 	lo := retriever.DefaultLoadOptions(e.dump)
 	lo.BatchSize = 2
 	if _, err := retriever.Load(context.Background(), db, "fake", lo); err != nil {
+		if opaque {
+			// this loader does not take such a dump at all: nothing to forge
+			return 0
+		}
 		tr.Fatal("two-graph baseline load: %v", err)
 	}
 	e.base = e.loadedRecs(db)
 	w.Emit(map[string]any{"e": "src", "hid": hid, "cfg": cfg, "graphs": cfg.srcGraphs(), "sizes": map[string]int{"manifest": len(e.files["manifest.json"]), "tar": 0, "enc": 0}})
-	e.attackDir("control", map[string][]byte{}, "lenient")
+	tag := ""
+	if opaque {
+		tag = "non-decimal ids: "
+	}
+	e.attackDir(tag+"control", map[string][]byte{}, "lenient")
 	var man map[string]any
 	if json.Unmarshal(e.files["manifest.json"], &man) != nil {
 		tr.Fatal("two-graph manifest")
@@ -693,7 +762,7 @@ func crossGraphAttacks(w *tr.Writer, hid int, codec, root string) int {
 			}
 			delete(m, "metrics")
 			b, _ := json.MarshalIndent(m, "", "  ")
-			what := fmt.Sprintf("relationship fragment of %s replaced by that of %s, manifest entry rewritten to match", tg["name"], graphs[from].(map[string]any)["name"])
+			what := tag + fmt.Sprintf("relationship fragment of %s replaced by that of %s, manifest entry rewritten to match", tg["name"], graphs[from].(map[string]any)["name"])
 			e.attackDir(what, map[string][]byte{dst["path"].(string): e.files[src["path"].(string)], "manifest.json": b}, "strict")
 		}
 	}
